@@ -491,7 +491,15 @@ func (s *trieSync) process(req *trieReq) (int, error) {
 		}
 		// If we've requested the node too many times already, it may be a malicious
 		// sync where nobody has the right data. Abort.
-		if len(task.attempts) >= npeers {
+		// Only peers that are still registered count: the mark left by a peer that
+		// has gone says nothing about the peers that were never asked.
+		tried := 0
+		for id := range task.attempts {
+			if s.d.peers.Peer(id) != nil {
+				tried++
+			}
+		}
+		if tried >= npeers {
 			return successful, fmt.Errorf("state node %s failed with all peers (%d tries, %d peers)", hash.TerminalString(), len(task.attempts), npeers)
 		}
 		// Missing item, place into the retry queue.
